@@ -73,7 +73,10 @@ def h64(obj) -> int:
 class Acc:
     """Accumulator used inside workers (and merged in the parent)."""
 
+    current = None   # the accumulator most recently created in this process (see pool.Bail)
+
     def __init__(self, prop):
+        Acc.current = self
         self.prop = prop
         self.n = 0
         self.viol = collections.defaultdict(list)   # oracle -> [violation dict]
